@@ -241,6 +241,9 @@ def rsum_axioms(st, arr, n):
     # sum_nonneg / sum_pos
     st.assume(z3.Implies(z3.ForAll([j], z3.Implies(z3.And(j >= 0, j < n), z3.Select(arr, j) >= 0)), s >= 0))
     st.assume(z3.Implies(n == 0, s == 0))
+
+    st.assume(z3.Implies(z3.And(z3.ForAll([j], z3.Implies(z3.And(j >= 0, j < n), z3.Select(arr, j) >= 0)),
+                                z3.Exists([j], z3.And(j >= 0, j < n, z3.Select(arr, j) > 0))), s > 0))
     # sum_zero_iff for non-negative arrays
     st.assume(z3.Implies(z3.And(z3.ForAll([j], z3.Implies(z3.And(j >= 0, j < n), z3.Select(arr, j) >= 0)), s == 0),
                          z3.ForAll([j], z3.Implies(z3.And(j >= 0, j < n), z3.Select(arr, j) == 0))))
@@ -331,10 +334,15 @@ def np_inplace(eng, st, node, a, kw, k, ctx):
     if rs != arr.s[1]:
         raise Unsupported("in-place op changes dtype")
     eng.set_list(st, arr, None, new, node)
+    if op.t == "Div":
+        nan = eng.arr(st, "list.nan")
+        bad = (to_real(rhs) == 0) if rhs.s[0] != "list" else z3.BoolVal(True)
+        st.heap.arrs["list.nan"] = z3.Store(nan, arr.t, z3.Or(z3.Select(nan, arr.t), bad))
     if op.t == "Div" and rs == REAL and rhs.s[0] != "list":
-        # lemma sum_scale (instance): sum(a / c) = sum(a) / c
+        # lemma sum_scale (instance): sum(a / c) = sum(a) / c ; sign of a quotient by a positive number
         c = to_real(rhs)
         st.assume(z3.Implies(c != 0, RSUM(new, n) == RSUM(old_el, n) / c))
+
     if op.t == "Add" and rs == REAL and rhs.s[0] != "list":
         c = to_real(rhs)
         st.assume(RSUM(new, n) == RSUM(old_el, n) + z3.ToReal(n) * c)
@@ -347,6 +355,10 @@ def np_binop(eng, st, node, a, kw, k, ctx):
     old_el = eng.list_elems(st, arr)
     new, n, rs, rj = _elementwise(eng, st, arr, rhs, op.t)
     out = eng.new_list(st, rs, n, new)
+    if op.t == "Div":
+        nan = eng.arr(st, "list.nan")
+        bad = (to_real(rhs) == 0) if rhs.s[0] != "list" else z3.BoolVal(True)
+        st.heap.arrs["list.nan"] = z3.Store(nan, out.t, z3.Or(z3.Select(nan, arr.t), bad))
     if op.t == "Div" and rs == REAL and rhs.s[0] != "list" and arr.s[1] == REAL:
         c = to_real(rhs)
         st.assume(z3.Implies(c != 0, RSUM(new, n) == RSUM(old_el, n) / c))
@@ -393,7 +405,8 @@ def rng_choice(eng, st, node, a, kw, k, ctx):
     pel = eng.list_elems(st, p)
     j = z3.Int(f"j!{next(_fresh)}")
     psum = rsum_axioms(st, pel, n_p)
-    valid = z3.And(n_a == n_p, n_a > 0, z3.ForAll([j], z3.Implies(z3.And(j >= 0, j < n_p), z3.Select(pel, j) >= 0)), psum == 1)
+    valid = z3.And(n_a == n_p, n_a > 0, z3.ForAll([j], z3.Implies(z3.And(j >= 0, j < n_p), z3.Select(pel, j) >= 0)), psum == 1,
+                   z3.Not(z3.Select(eng.arr(st, "list.nan"), p.t)))
     s2 = st.fork()
     s2.assume(z3.Not(valid))
     if eng.feasible(s2):
@@ -403,11 +416,16 @@ def rng_choice(eng, st, node, a, kw, k, ctx):
     st.assume(z3.And(kx >= 0, kx < n_a, z3.Select(pel, kx) > 0))
     st.events.append(("choice", {"rng": rng, "cand": cand_desc, "n": n_a, "p": p, "p_elems": pel, "pick": kx, "line": getattr(node, "lineno", 0)}))
     eng.assumption_log.add("numpy Generator.choice(a, p=p): ValueError unless p is a probability vector of len(a) > 0; returns a[k] with p[k] > 0, k drawn with probability p[k] independently (trusted)")
+    st.wlog.extend(["ghost.choices", "ghost.last_p", "ghost.last_n", "ghost.last_pick", "ghost.last_rng", "ghost.last_cand"])
     cnt = eng.ghost_get(st, "ghost.choices", INT)
     st.ghost["ghost.choices"] = V(INT, cnt.t + 1)
     lastp = eng.ghost_get(st, "ghost.last_p", ("map", INT, REAL))
     st.ghost["ghost.last_p"] = V(("map", INT, REAL), pel)
     st.ghost["ghost.last_n"] = V(INT, n_a)
+    cj = z3.Int(f"c!{next(_fresh)}")
+    lc_arr = fresh("cand", z3.ArraySort(z3.IntSort(), z3.IntSort()))
+    st.assume(z3.ForAll([cj], z3.Select(lc_arr, cj) == at(cj)))
+    st.ghost["ghost.last_cand"] = V(("map", INT, INT), lc_arr)
     st.ghost["ghost.last_pick"] = V(INT, kx)
     st.ghost["ghost.last_rng"] = V(Opaque("Generator"), rng.t)
     return k(st, eng.typing_facts(st, V(ret_sort, at(kx))) if ret_sort[0] in ("ref", "list") else V(ret_sort, at(kx)))
